@@ -26,6 +26,15 @@ def _compute(tier, seed):
     else:
         routing = [x for x in routing if len(x['rows']) < 2 or int(digest(x), 16) % 3 == seed % 3]
     from . import replay_plots
+    # beyond the bound TLC enumerates: the invariants Encloses / Nested / "limits are samples" of module Plots evaluated (in
+    # exact rational arithmetic) on the figure's output for LARGE sets of distinct samples -- the rank grid 1/n is then finer
+    # than the second decimal of the tail percentiles (1/40, 1/200, 1/400) of the specification's bulk probabilities
+    import random
+    for n_large in (101, 200, 333, 1000):
+        codes = list(range(1, n_large + 1))
+        random.Random(1000 * seed + n_large).shuffle(codes)
+        bands.append(dict(mode='bands', v=codes, large=True,
+                          bands=[dict(num=b['num'], den=b['den'], boundary=True) for b in bands[0]['bands']]))
     res = pmap(replay_plots.replay_bands, [(rec, seed) for rec in bands]) + \
         pmap(replay_plots.replay_routing, [(rec, seed) for rec in routing])
     return dict(runs=[rb.summary(), rr.summary()], n=len(bands) + len(routing), results=res,
@@ -43,13 +52,14 @@ def run(tier, seed):
     for s in out['samples']:
         v.sample(s)
     nt = v.counters.get('feat_ties', 0) + v.counters.get('feat_several_individuals', 0)
-    if nt == 0 or v.counters.get('feat_boundary', 0) == 0:
+    if nt == 0 or v.counters.get('feat_boundary', 0) == 0 or v.counters.get('feat_large_sample', 0) == 0:
         v.vacuous('vacuous run')
     cov = dict(states=sum(r['states'] for r in out['runs']), transitions=sum(r['transitions'] for r in out['runs']),
                traces_validated_against_impl=out['n'], evaluations=v.counters.get('evaluations', 0), distinct_nontrivial=nt,
                exhaustive=(tier == 'quick'),
                rule='bands: every sample sequence of length <= 5 (7) over 4 values x 6 bulk probabilities, plotted at two time '
-                    'points on the PD and PK predictive figures; routing: every sequence of <= 2 (3) rows over 2 individuals x 3 '
+                    'points on the PD and PK predictive figures, plus 4 seeded sets of 101 to 1000 distinct samples (invariants evaluated on '
+                    'the output); routing: every sequence of <= 2 (3) rows over 2 individuals x 3 '
                     'observable states x 2 times x 2 values x dose / none, on the four time-series figures; non-trivial = ties '
                     'among the samples resp. several individuals',
                tlc_runs=out['runs'])
